@@ -38,7 +38,11 @@ impl InputEvent {
                     .with_checks(false)
                     .flatten()
                     .find(|a| a.key.as_ref() == b"xmlns")
-                    .map(|a| String::from_utf8_lossy(&a.value).into_owned());
+                    // (the value as an XML processor sees it: "sv&#103;" is "svg")
+                    .map(|a| match a.unescape_value() {
+                        Ok(value) => value.into_owned(),
+                        Err(_) => String::from_utf8_lossy(&a.value).into_owned(),
+                    });
                 Some((name, xmlns))
             }
             _ => None,
